@@ -6,6 +6,7 @@ package main
 // Prints the owner's pools for C4E.Upgrade.umismatches and evaluates the predicates of C16.
 
 import (
+	"encoding/binary"
 	"fmt"
 	"math/big"
 	"strings"
@@ -159,6 +160,35 @@ func runUpgradeCase(ta *TestApp, seed uint64, idx int, rep *Report, profile stri
 		}
 		owners = append(owners, lo)
 		rep.Count("legacy_owner.upper_case_spelling_of_another_owner")
+	}
+	// ---- legacy (v2) vesting account traces: records (id, address) keyed by id, plus their count; some of the addresses the
+	// upgrade lists as genesis accounts / accounts created from genesis pools, some unlisted ones
+	var legacyTraces []v2.VestingAccount
+	{
+		cand := append(append([]string{}, upgradeGenesisAddrs...), upgradeFromPoolAddrs...)
+		for _, a := range cand {
+			if rng.Chance(45) {
+				legacyTraces = append(legacyTraces, v2.VestingAccount{Address: a})
+			}
+		}
+		for i := rng.Intn(4); i > 0; i-- {
+			legacyTraces = append(legacyTraces, v2.VestingAccount{Address: sdk.AccAddress(rng.Bytes(20)).String()})
+		}
+		for i := len(legacyTraces) - 1; i > 0; i-- {
+			j := rng.Intn(i + 1)
+			legacyTraces[i], legacyTraces[j] = legacyTraces[j], legacyTraces[i]
+		}
+		tst := prefix.NewStore(ctx.KVStore(storeKey), []byte(v2.VestingAccountKey))
+		for i := range legacyTraces {
+			legacyTraces[i].Id = uint64(i)
+			idb := make([]byte, 8)
+			binary.BigEndian.PutUint64(idb, uint64(i))
+			tst.Set(idb, app.AppCodec().MustMarshal(&legacyTraces[i]))
+		}
+		cnt := make([]byte, 8)
+		binary.BigEndian.PutUint64(cnt, uint64(len(legacyTraces)))
+		ctx.KVStore(storeKey).Set([]byte(v2.VestingAccountCountKey), cnt)
+		rep.Count(fmt.Sprintf("legacy.traces.%d", 3-max0(3-len(legacyTraces)/4)))
 	}
 	pst := prefix.NewStore(ctx.KVStore(storeKey), v2.AccountVestingPoolsKeyPrefix)
 	total := sdk.ZeroInt()
@@ -386,6 +416,25 @@ func runUpgradeCase(ta *TestApp, seed uint64, idx int, rep *Report, profile stri
 		}
 	}()
 	rep.Eval("C16.upgrade_completes", panicked == "", idx, 1, panicked)
+	// C17: after the upgrade every recorded account is still recorded, under its address and with its id, and carries exactly the
+	// lineage the upgrade documents: the listed genesis accounts are genesis accounts, the listed accounts created from genesis
+	// pools are that, nobody else is anything
+	if panicked == "" {
+		okTr, detail := true, ""
+		for _, lt := range legacyTraces {
+			tr, found := k.GetVestingAccountTrace(ctx, lt.Address)
+			wantG, wantP := inList(upgradeGenesisAddrs, lt.Address), inList(upgradeFromPoolAddrs, lt.Address)
+			if !found || tr.Id != lt.Id || tr.Genesis != wantG || tr.FromGenesisPool != wantP || tr.FromGenesisAccount {
+				okTr = false
+				detail = fmt.Sprintf("recorded account %s (id %d; listed as genesis account: %v, as created from a genesis pool: %v) after the upgrade: found %v, id %d, genesis %v, from genesis pool %v, from genesis account %v",
+					lt.Address, lt.Id, wantG, wantP, found, tr.Id, tr.Genesis, tr.FromGenesisPool, tr.FromGenesisAccount)
+			}
+		}
+		if n := len(k.GetAllVestingAccountTrace(ctx)); n != len(legacyTraces) {
+			okTr, detail = false, fmt.Sprintf("%d recorded accounts before the upgrade, %d after it", len(legacyTraces), n)
+		}
+		rep.Eval("C17.upgrade_records_the_documented_lineage", okTr, idx, 1, detail)
+	}
 	// ---- predicates
 	postAll := k.GetAllAccountVestingPools(ctx)
 	postTotal := sdk.ZeroInt()
@@ -543,4 +592,25 @@ func runUpgradeCase(ta *TestApp, seed uint64, idx int, rep *Report, profile stri
 	}
 	_ = strings.Join
 	return fmt.Sprintf("{| uc_id := %d; uc_consts := %s;\n uc_pools := %s; uc_type_exists := %s;\n uc_expected := %s |}", idx, consts, modelPools, zBool(hasType), zListB(expected))
+}
+
+// the accounts the v1.2.0 upgrade documents as genesis accounts and as accounts created from genesis pools
+var upgradeGenesisAddrs = []string{
+	"c4e1z5h0squtynr8rhwl0mzqdcd0wgmfyvpqmx3y2r", "c4e1x6umuffxgcrgqqqdncwn2t8qdnc2muvultxmza", "c4e1wrhuuwjjmkjx3lxs08ych9ddgdzvujgdr6hnwv",
+	"c4e12rxujjj4th90t8z30gnre5tv4zmguuqvtn2u02", "c4e1zvkxuvk8t6wju76pxkp3f4kk447sjm2kdsgvwy", "c4e13qamrx863pa72ku88d3ykypdh0ar6rjycnpkl2",
+	"c4e1f57wax48ttw068e6lgag9fse62d4m3e24u0sph", "c4e1jxlv64qf8rvy8zayl7m2m8a0jzhxkfj9aw96f3", "c4e1cpnh73765mx3q87lxacqwvwxn4s8ppry458xp4",
+	"c4e1argfhnzzxjft426tnj4crjsu8lqp0av3x8gjey", "c4e1w8hdxd6g7vzupll9ynmenjkln9rs4kcq0mdesf", "c4e12znccp5u8zx9qy4u9gmpxjge9reaxy80qfm295",
+	"c4e1t45l2pnk5uwj2qqjw4f6rcy6jw5f9lkplmp49e", "c4e1nmfgexjj3yvvrnc2n7yyahgxsm0vqcm57dqx5f", "c4e1ej2es5fjztqjcd4pwa0zyvaevtjd2y5wq2vaaq",
+	"c4e1dsm96gwcv35m4rqd93pzcsztpkrqe0ev7getj8", "c4e10wjj2qmn4zjg2sdxq9mfyj5v4yukwyhzdtf2zp", "c4e1zrd0783g8qa5659apw5tpuqmz2ct6j20t4ymx3",
+	"c4e1y8lndj6jz5z93g4xd05nmwyc3wtn39dfgfx7r7", "c4e12845qa79cwlvf3jdcnfq2jy2jfmzslcg52lv3g"}
+var upgradeFromPoolAddrs = []string{"c4e13e303u43k7mng4927axuhve0plgsyxc4xky63k", "c4e1twh6302lzcvn7lr3x0fjwfkgryn9ac5c6v2zaj",
+	"c4e19je7lmu4yzrpzh7gksj3uhku4as8at6lk36qe7", "c4e1nm50zycnm9yf33rv8n6lpks24usxzahk5usl7e"}
+
+func inList(l []string, s string) bool {
+	for _, x := range l {
+		if x == s {
+			return true
+		}
+	}
+	return false
 }
